@@ -230,6 +230,12 @@ def gen(seed, tier, scale):
     rngs = [case_rng(seed, ID, 500000 + i) for i in range(ncli)]
     for i, r in enumerate(rngs):          # sequential: the case uses in-process stdout redirection
         yield 500000 + i, cli_case(r)
+    # wave 18: the command with every source format and reader option against TT.runTransitionsSrc
+    import srccases
+    nsrc = (16 if tier == "quick" else 300) * scale
+    rngs = [case_rng(seed, ID, 700000 + i) for i in range(nsrc)]
+    for i, c in enumerate(cli.pmap(srccases.transitions_case, rngs)):
+        yield 700000 + i, c
     idx = 0
     for _ in range((3000 if tier == "quick" else 60000) * scale):
         rng = case_rng(seed, ID, idx)
